@@ -10,7 +10,7 @@ from vlib.coqterm import C, Raw, show
 
 ASSUMPTIONS = [
     "a crash image is: files written earlier in the operation complete, the file being written cut at any length, files written later untouched; writes to one file land in order (what a kernel may reorder between files with fsync off is not explored)",
-    "wait-confirmation only: with no-wait confirmation the background persister's write order is not controlled by the harness",
+    "workloads run under wait-confirmation; the images a no-wait persister or a reordering kernel can leave (index entry on disk, batch missing or torn) are added by cutting the log behind a complete index",
     "a torn state-log tail that makes start-up fail with an error counts as 'reported' (C11 covers the loader)",
 ]
 PART = "streams/1/topics/1/partitions/1/"
@@ -78,6 +78,12 @@ def images(before, after, op=None):
             # the file being written comes first (classification looks at it)
             cuts.sort(key=lambda c: c["path"] != p)
             out.append(("%s@%s" % (p.split("/")[-1], "uncreated" if kind == "create" else t), cuts))
+    # no-wait confirmation (the log is written by a background task) or fsync off + power loss: the index entry can be on disk
+    # while the batch it points to is not, or only partly
+    for p in changed:
+        if p.endswith(".log") and p[:-4] + ".index" in changed and after[p] != (before.get(p) or 0):
+            for t in torn_lengths(before.get(p) or 0, after[p]):
+                out.append(("%s@behind-index-%s" % (p.split("/")[-1], t), [{"path": p, "len": t}]))
     if op and op["op"] == "store_offset":
         # the offset file is rewritten in place (truncate, then 8 bytes): same length afterwards, so not in `changed`
         for q in after:
